@@ -408,6 +408,25 @@ pub fn sweep(ti: usize, n: usize, st: &mut Stats, kf: &KnownFindings) {
             sweep127("sx1272", hz, st);
         }
     }
+    // SX127x through the adapter on every band (the SX1276 offset depends on it): a 1024-point grid per frequency
+    for (chip, hz) in [("sx1276", 137_000_000u32), ("sx1276", 169_400_000), ("sx1276", 433_175_000), ("sx1276", 490_000_000), ("sx1276", 525_000_000), ("sx1276", 862_000_000), ("sx1276", 915_000_000), ("sx1276", 1_020_000_000), ("sx1272", 915_000_000)] {
+        for snr in (0..=255u8).step_by(8) {
+            k += 1;
+            if k % n != ti {
+                continue;
+            }
+            for rssi in (0..=255u8).step_by(8) {
+                st.eval();
+                st.class(&format!("pktstatus:{chip}:lorawan-rx_single:{hz}"));
+                if snr >= 128 {
+                    st.nt_distinct();
+                }
+                if let Err(f) = one127(chip, "lorawan-rx_single", hz, snr | 3, rssi | 5) {
+                    st.fail(f);
+                }
+            }
+        }
+    }
     // SX127x through the adapter: a 4096-point grid per chip
     for chip in ["sx1276", "sx1272"] {
         for snr in (0..=255u8).step_by(4) {
